@@ -83,6 +83,11 @@ def run_generic(prop: str, idx: Index, rep: Report, tier: str) -> None:
     n += extra3.increase_decrease_twins(rep, f"{g} increase-decrease-branches-agree", funcs) or 0
     n += extra3.size_fixpoint_loops(rep, f"{g} fixpoint-loop-measures-the-collection", funcs) or 0
     n += extra3.keyword_attribute_crossing(rep, f"{g} keyword-field-crossing", funcs) or 0
+    if not rules2.self_check_expression_truthiness():
+        from ..index import AnalysisError
+
+        raise AnalysisError(f"{g} expression-node-truthiness: the positive fixture no longer fires")
+    n += rules2.expression_node_truthiness(rep, f"{g} expression-node-truthiness", funcs) or 0
     rep.count("generic_instances", n)
 
 
